@@ -301,6 +301,11 @@ def run_case(asm, acc, case):
                 items = items[:-1] + [{'k': 'pseudo', 'm': 'mv', 'ops': [{'r': 5}, {'r': 8}]}, {'k': 'pseudo', 'm': 'neg', 'ops': [{'r': 8}, {'r': 5}]}] + items[-1:]
             preseed = {'labels': dict(extern)}
             acc['ctr']['programs_with_an_external_symbol'] += 1
+        elif case['kind'] == 'named' and case['idx'] % 4 == 2:
+            # the caller's label table is left over from a build in which this name was a label somewhere else: the program defines
+            # the name as a constant, and a constant is what an operand means
+            preseed = {'labels': {it['name']: (it['value'] ^ 0x7f0) + 0x100 for it in items if it['k'] == 'const'}}
+            acc['ctr']['programs_whose_constant_is_also_a_stale_table_entry'] += 1
         ex = progcheck.examine(asm, items, compress, seed='%s-%d' % (case['kind'], case['idx']), nregs=case.get('nregs', 5), lines=lines, preseed=preseed, extern=extern)
         if extern and ex.ok and any(ex.labels_reported.get(k) != v for k, v in extern.items()):
             core.add_viol(acc, 'program %r (compress=%s): the caller\'s external symbol %r came back as %r' % (
